@@ -27,7 +27,7 @@ type Program struct {
 	specFn   map[string]*SpecFunc      // "pkg.name" -> spec function
 	specCst  map[string]string         // "pkg.name" -> integer literal
 	ghosts   map[string]*GhostVar      // name -> ghost var
-	owned    map[string]bool // "pkg.Type.field": slice fields whose backing array belongs to exactly one object
+	owned    map[string]bool           // "pkg.Type.field": slice fields whose backing array belongs to exactly one object
 	lemmas   []*Lemma
 	axioms   []*Lemma
 	srcHash  string
